@@ -73,7 +73,10 @@ def instr_summary(T, opc, K, line_offset=None, linestarts=None, exception_entrie
     out = sp.run(f, [], args)
     ls = find_loop(sp, lambda l: any(e.kind == "yield" for e in flat_objs(l.effects)))
     if ls is None:
-        raise AnalysisError("get_logical_instruction_at_offset: no decoding loop that yields an Instruction found")
+        # the iteration never reaches its yield for this opcode: it raises (e.g. arithmetic on a None operand) on every path
+        why = sorted({"%s in %s" % (e.args[1], e.args[0]) for k, e in flatten_effects(sp.effects) if k == "raises"})
+        kinds = sorted({type(l).__name__ + (":" + str(getattr(l, "exc", ""))[:40] if isinstance(l, Raise) else "") for g, l in leaves(out)})
+        return {"spec": sp, "error": "the decoder never yields an Instruction for this opcode (%s)" % (", ".join(why) or ", ".join(kinds) or "no loop")}
     ys = [e for e in flat_objs(ls.effects) if e.kind == "yield"]
     res = {"spec": sp, "loop": ls, "cursor": hook.cursor, "yields": ys}
     if len(ys) != 1:
